@@ -740,6 +740,159 @@ theorem decodeC_class (a : Archive) (hl : a.words.length = nWords a.size) (text 
   · have h1 : (splitOn ':' text).length ≠ a.words.length := by omega
     simp [decodeC, decode, h1, hlen]
 
+/-! ### a failing `Decode` -/
+
+/-- what a failing `parseEntriesIntoArrayValues` leaves behind: the word count, and every word from the
+last entry's index on (the failing entry is at or before the last one, and only words in front of the
+failing entry are written) -/
+theorem parseEntries_fail (es : List (List Char)) (idx : Nat) (ws : List (BitVec 64)) (e : DecodeErr)
+    (h : (parseEntries es idx ws).2 = some e) :
+    (parseEntries es idx ws).1.length = ws.length ∧
+    ∀ k, idx + es.length ≤ k + 1 → (parseEntries es idx ws).1.getD k 0#64 = ws.getD k 0#64 := by
+  induction es generalizing idx ws with
+  | nil => simp [parseEntries] at h
+  | cons x es ih =>
+    unfold parseEntries at h ⊢
+    cases hx : parseHex x with
+    | error err => simp
+    | ok v =>
+      simp only [hx] at h ⊢
+      cases es with
+      | nil => simp [parseEntries] at h
+      | cons y ys =>
+        obtain ⟨h1, h2⟩ := ih (idx + 1) (ws.set idx (BitVec.ofNat 64 v)) h
+        refine ⟨by simpa using h1, ?_⟩
+        intro k hk
+        simp only [List.length_cons] at hk
+        rw [h2 k (by simp only [List.length_cons]; omega)]
+        have : ¬ idx = k := by omega
+        simp [List.getD_eq_getElem?_getD, this]
+
+theorem parseEntries_of_parseAll_ok (es : List (List Char)) (vs : List Nat) (hp : parseAll es = .ok vs)
+    (idx : Nat) (ws : List (BitVec 64)) : (parseEntries es idx ws).2 = none := by
+  induction es generalizing vs idx ws with
+  | nil => rfl
+  | cons e es ih =>
+    unfold parseAll at hp
+    split at hp
+    · cases hp
+    · rename_i v hv
+      split at hp
+      · cases hp
+      · rename_i vs' hvs
+        simp only [parseEntries, hv]
+        exact ih vs' hvs _ _
+
+/-- a failing `Decode` that is not a partial write (`partialWrite`) leaves the archive exactly as it
+was: words, size and memoised text -/
+theorem decodeC_fail_unchanged (a : Archive) (hl : a.words.length = nWords a.size) (t : List Char)
+    (hnp : partialWrite a.size t = false) (hf : (decodeC a t).2 ≠ none) : (decodeC a t).1 = a := by
+  unfold decodeC at hf ⊢
+  simp only [] at hf ⊢
+  by_cases hcount : (splitOn ':' t).length = a.words.length
+  · rw [if_neg (by simpa using hcount)] at hf ⊢
+    unfold partialWrite at hnp
+    rcases hsp : splitOn ':' t with _ | ⟨e, _ | ⟨e', es⟩⟩
+    · rw [hsp] at hf; simp [parseEntries] at hf
+    · rw [hsp] at hf
+      simp only [parseEntries] at hf ⊢
+      cases hp : parseHex e with
+      | error err => simp
+      | ok v => simp [hp] at hf
+    · rw [hsp] at hf hnp hcount
+      cases hp : parseHex e with
+      | error err => simp [parseEntries, hp]
+      | ok v =>
+        exfalso
+        simp only [hp, isOk, Bool.and_true, Bool.and_eq_false_imp, decide_eq_true_eq,
+          Bool.not_eq_false'] at hnp
+        have hrest := hnp (by rw [hcount, hl])
+        cases hq : parseAll (e' :: es) with
+        | error err => simp [hq] at hrest
+        | ok vs =>
+          have hall : parseAll (e :: e' :: es) = .ok (v :: vs) := by
+            rw [parseAll, hp]; simp only [hq]
+          have hnone := parseEntries_of_parseAll_ok _ _ hall 0 a.words
+          generalize parseEntries (e :: e' :: es) 0 a.words = r at hf hnone
+          obtain ⟨ws, o⟩ := r
+          simp only at hnone
+          subst hnone
+          exact hf rfl
+  · rw [if_pos (by simpa using hcount)]
+
+/-- what every failing `Decode` keeps, partial writes included: size, word count, the memoised text and
+every entry at or above `size` (only cache coherence and the words in front of the bad entry are lost) -/
+theorem decodeC_fail_props (a : Archive) (hl : a.words.length = nWords a.size) (t : List Char)
+    (hf : (decodeC a t).2 ≠ none) :
+    (decodeC a t).1.size = a.size ∧ (decodeC a t).1.words.length = a.words.length ∧
+    (decodeC a t).1.cache = a.cache ∧
+    (∀ i, a.size ≤ i → bitAt (decodeC a t).1.words i = bitAt a.words i) ∧
+    (∀ k, a.words.length ≤ k + 1 → (decodeC a t).1.words.getD k 0#64 = a.words.getD k 0#64) := by
+  unfold decodeC at hf ⊢
+  simp only [] at hf ⊢
+  by_cases hcount : (splitOn ':' t).length = a.words.length
+  · rw [if_neg (by simpa using hcount)] at hf ⊢
+    generalize hr : parseEntries (splitOn ':' t) 0 a.words = r at hf ⊢
+    obtain ⟨ws, o⟩ := r
+    cases o with
+    | none => simp at hf
+    | some e =>
+      have hfail := parseEntries_fail (splitOn ':' t) 0 a.words e (by rw [hr])
+      rw [hr] at hfail
+      obtain ⟨h1, h2⟩ := hfail
+      simp only at h1 h2 ⊢
+      refine ⟨trivial, h1, trivial, ?_, ?_⟩
+      · intro i hi
+        unfold bitAt
+        by_cases hk : i / 64 < a.words.length
+        · rw [h2 (i / 64) (by rw [hcount, hl] at *; unfold nWords at *; omega)]
+        · have e1 : ws.getD (i / 64) 0#64 = 0#64 := by
+            simp [List.getD_eq_getElem?_getD, List.getElem?_eq_none (show ws.length ≤ i / 64 by omega)]
+          have e2 : a.words.getD (i / 64) 0#64 = 0#64 := by
+            simp [List.getD_eq_getElem?_getD, List.getElem?_eq_none (show a.words.length ≤ i / 64 by omega)]
+          rw [e1, e2]
+      · intro k hk
+        exact h2 k (by omega)
+  · rw [if_pos (by simpa using hcount)]
+    exact ⟨rfl, rfl, rfl, fun _ _ => rfl, fun _ _ => rfl⟩
+
+/-- the invariant after a successful `SetValue`, from nothing but the word count and the clear high
+bits (whatever the memoised text was: e.g. after a partially written `Decode`) -/
+theorem wf_setValue_raw (a : Archive) (hl : a.words.length = nWords a.size)
+    (hh : ∀ i, a.size ≤ i → bitAt a.words i = false) (i : Nat) (v : Bool) (hi : i < a.size) :
+    WF (resetCache (setValueUnchecked a i v)) where
+  len := by simp [resetCache, hl]
+  high := by
+    intro k hk
+    simp only [resetCache, setValueUnchecked_size] at hk ⊢
+    rw [bitAt_setValueUnchecked a i v k (idx_div_lt hl hi)]
+    have : ¬ k = i := by omega
+    simp [this, hh k hk]
+  cache := Or.inl rfl
+
+/-- the invariant after a successful `Decode`, from nothing but the word count -/
+theorem decodeC_ok_raw_wf (a : Archive) (hl : a.words.length = nWords a.size) (text : List Char)
+    (bs : List Bool) (hd : decode a.size text = .ok bs) :
+    (decodeC a text).2 = none ∧ WF (decodeC a text).1 ∧ absBits (decodeC a text).1 = bs := by
+  obtain ⟨vs, hlen, hp, rfl⟩ := decode_ok_inv _ _ _ hd
+  obtain ⟨r1, r2, r3, r4, r5⟩ := decodeC_ok_raw a hl text vs hlen hp
+  refine ⟨r1, ⟨by rw [r4, r2, hl], ?_, Or.inl r3⟩, ?_⟩
+  · intro i hi
+    rw [r5 i, if_neg (by omega)]
+  · apply List.ext_getElem
+    · simp [r2]
+    · intro i h1 h2
+      have hi : i < a.size := by simpa using h2
+      simp [absBits_eq, r5 i, hi]
+
+theorem partialWrite_false_of_le (n : Nat) (h : n ≤ 64) (t : List Char) : partialWrite n t = false := by
+  unfold partialWrite
+  split
+  · rename_i e e' es _
+    have : ¬ (es.length + 1 + 1 = nWords n) := by unfold nWords; omega
+    simp [this]
+  · rfl
+
 /-! ### one step of the simulation -/
 
 /-- simulation relation between a concrete archive and the list of booleans it stands for -/
@@ -768,10 +921,66 @@ theorem sim_step (a : Archive) (bs : List Bool) (h : Sim a bs) (op : Op) (hv : v
   | encoding =>
     simp only [stepC, stepA, encoding_snd a hwf, habs]
     exact ⟨trivial, wf_encoding a hwf, by rw [absBits_encoding, habs]⟩
+  | setValueInt i v =>
+    have hw : a.words = [] ↔ a.size = 0 := by
+      rw [← List.length_eq_zero_iff, hwf.len]; unfold nWords; omega
+    simp only [stepC, stepA, setValueInt]
+    by_cases h1 : i ≥ (a.size : Int)
+    · rw [if_pos h1, if_pos (show i ≥ (bs.length : Int) by omega)]
+      exact ⟨rfl, hwf, habs⟩
+    · rw [if_neg h1, if_neg (show ¬ i ≥ (bs.length : Int) by omega)]
+      by_cases h2 : i ≥ 0
+      · rw [if_pos h2, if_pos h2]
+        have hi : i.toNat < a.size := by omega
+        simp only [setValue_some a i.toNat v hi]
+        exact ⟨trivial, wf_setValue a hwf _ v hi, by rw [absBits_setValue a hwf _ v hi, habs]⟩
+      · rw [if_neg h2, if_neg h2]
+        by_cases h3 : i ≤ -64
+        · rw [if_pos h3, if_pos h3]
+          exact ⟨rfl, hwf, habs⟩
+        · rw [if_neg h3, if_neg h3]
+          by_cases h4 : a.size = 0
+          · rw [if_pos (hw.mpr h4), if_pos (show bs.length = 0 by omega)]
+            exact ⟨rfl, hwf, habs⟩
+          · rw [if_neg (fun h => h4 (hw.mp h)), if_neg (show ¬ bs.length = 0 by omega)]
+            exact ⟨rfl, ⟨hwf.len, hwf.high, Or.inl rfl⟩, habs⟩
+  | valueInt i =>
+    have hw : a.words = [] ↔ a.size = 0 := by
+      rw [← List.length_eq_zero_iff, hwf.len]; unfold nWords; omega
+    simp only [stepC, stepA, valueInt]
+    by_cases h1 : i ≥ (a.size : Int)
+    · rw [if_pos h1, if_pos (show i ≥ (bs.length : Int) by omega)]
+      exact ⟨rfl, hwf, habs⟩
+    · rw [if_neg h1, if_neg (show ¬ i ≥ (bs.length : Int) by omega)]
+      by_cases h2 : i ≥ 0
+      · rw [if_pos h2, if_pos h2]
+        have hi : i.toNat < a.size := by omega
+        simp only [value_some a i.toNat hi, habs]
+        exact ⟨trivial, hwf, habs⟩
+      · rw [if_neg h2, if_neg h2]
+        by_cases h3 : i ≤ -64
+        · rw [if_pos h3, if_pos h3]
+          exact ⟨rfl, hwf, habs⟩
+        · rw [if_neg h3, if_neg h3]
+          by_cases h4 : a.size = 0
+          · rw [if_pos (hw.mpr h4), if_pos (show bs.length = 0 by omega)]
+            exact ⟨rfl, hwf, habs⟩
+          · rw [if_neg (fun h => h4 (hw.mp h)), if_neg (show ¬ bs.length = 0 by omega)]
+            exact ⟨rfl, hwf, habs⟩
   | decode t =>
-    simp only [validOp] at hv
+    simp only [validOp, Bool.not_eq_true'] at hv
     cases hd : decode bs.length t with
-    | error e => simp [hd] at hv
+    | error e =>
+      rw [hsz] at hd hv
+      have hcls := decodeC_class a hwf.len t
+      rw [hd] at hcls
+      have hun := decodeC_fail_unchanged a hwf.len t hv (by rw [hcls]; simp)
+      simp only [stepC, stepA, hsz, hd]
+      generalize decodeC a t = r at hcls hun
+      obtain ⟨a', o⟩ := r
+      simp only at hcls hun
+      subst hcls; subst hun
+      exact ⟨rfl, hwf, habs⟩
     | ok bs' =>
       rw [hsz] at hd
       obtain ⟨d1, d2, d3, _⟩ := decodeC_ok a hwf t bs' hd
@@ -797,6 +1006,28 @@ theorem stepA_length (bs : List Bool) (op : Op) : (stepA bs op).1.length = bs.le
     cases hd : decode bs.length t with
     | error e => rfl
     | ok bs' => exact decode_length _ _ _ hd
+  | setValueInt i v =>
+    simp only [stepA]
+    by_cases h1 : i ≥ (bs.length : Int)
+    · rw [if_pos h1]
+    · rw [if_neg h1]
+      by_cases h2 : i ≥ 0
+      · rw [if_pos h2]; simp
+      · rw [if_neg h2]
+        by_cases h3 : i ≤ -64
+        · rw [if_pos h3]
+        · rw [if_neg h3]; split <;> rfl
+  | valueInt i =>
+    simp only [stepA]
+    by_cases h1 : i ≥ (bs.length : Int)
+    · rw [if_pos h1]
+    · rw [if_neg h1]
+      by_cases h2 : i ≥ 0
+      · rw [if_pos h2]
+      · rw [if_neg h2]
+        by_cases h3 : i ≤ -64
+        · rw [if_pos h3]
+        · rw [if_neg h3]; split <;> rfl
 
 theorem runC_eq_runA (a : Archive) (bs : List Bool) (h : Sim a bs) (ops : List Op)
     (hv : ∀ op ∈ ops, validOp bs.length op = true) : runC a ops = runA bs ops := by
